@@ -1,7 +1,9 @@
 """C03 - simulated genotypes agree with the breakpoints and the reference panel.
 
 Relations
-  vcf    : sim_genotype.output_vcf end to end on generated breakpoints (hand-built, chromosome-sorted,
+  vcf    : (+ rare classes: WIDE reference panels of 129..140 / 257..300 / 65537..65600 samples whose model-population
+           samples sit in the high columns - gen_wide_case - and the width-boundary stream - gen_boundary_case)
+           sim_genotype.output_vcf end to end on generated breakpoints (hand-built, chromosome-sorted,
            ending in the 2^31-1 sentinel) and generated reference panels (multi-allelic with one allele per
            reference haplotype so that provenance is readable, or bi-allelic; VCF.gz+tbi / BCF+csi / PGEN;
            with or without chr prefix; more chromosomes than requested; contig order differing from the
@@ -30,16 +32,21 @@ from .core import Relation, err_kind
 
 PROP = "C03"
 CLAIMED = True
-COQ_MODULES = ["C03_Check", "C03_Proofs", "C03_SimCheck", "C03_ProofsE2E"]
+COQ_MODULES = ["C03_Check", "C03_Proofs", "C03_SimCheck", "C03_ProofsE2E", "C03_ProofsSpec", "C03_ProofsC05",
+               "C03_ProofsComplete"]
 PROPERTY_MODULE = "C03_Property"
 ALLOWED_AXIOMS = []
 RULE = (
-    "vcf: 1-3 simulated samples, panels of 2-6 reference samples x 1-14 variants over 1-4 contigs, breakpoints of "
-    "1-4 tracts per chromosome with ends on/next to variant positions; non-trivial = some simulated haplotype has "
+    "vcf: 1-3 simulated samples, panels of 2-8 reference samples x 1-14 variants over 1-4 contigs, breakpoints of "
+    "1-4 tracts per chromosome with ends on/next to variant positions; plus two rare classes: WIDE panels (129-140, "
+    "257-300 - 300 in every run - and 65537-65600 reference samples given by a formula, the model populations' samples in "
+    "columns >= 128 / 256 / 32768 / 65536, the columns a narrowed index would hit owned by other populations) and the "
+    "WIDTH-BOUNDARY stream (254-300 variants on a chromosome, 254-300 tracts on a chromosome, positions and block ends "
+    "around 2^8, 2^15, 2^16, 2^24, 2^29 and 2^31-2). Non-trivial = some simulated haplotype has "
     ">= 2 blocks holding variants on one chromosome, or the panel holds a chromosome that was not requested / in "
-    "another order, or both POP and SAMPLE are requested. assign: non-trivial = some variant position equals a block "
-    "end. sim: as vcf, breakpoints simulated from generated maps; non-trivial = a reference variant lies past the last map "
-    "coordinate of a requested chromosome, or the vcf rule. Distinct = distinct canonical JSON."
+    "another order, or both POP and SAMPLE are requested, or the panel is wide. assign: non-trivial = some variant position "
+    "equals a block end. sim: as vcf (incl. wide panels), breakpoints simulated from generated maps; non-trivial = a reference "
+    "variant lies past the last map coordinate of a requested chromosome, or the vcf rule. Distinct = distinct canonical JSON."
 )
 TRUSTED = [
     "numpy RNG draws (choice index, randint strands, shuffle results) are recorded, not modelled",
@@ -79,10 +86,25 @@ def contig_name(v, prefix):
     return ("chr" if v[0] else "") + chrom_str(v[1])
 
 
+def formula_allele(h, f):
+    """allele of reference haplotype h (= 2*sample + strand) at a variant with formula f = [mult, shift, modulus]"""
+    return (h * f[0] + f[1]) % f[2]
+
+
+def ref_data(ref):
+    """data[sample][variant] = [allele strand 0, allele strand 1]; spelled out in ref['data'] or - for wide panels -
+    given by ref['formula'][variant] = [mult, shift, modulus] (the same formula is C03_Model.fdata)"""
+    if "formula" in ref:
+        return [[[formula_allele(2 * r, f), formula_allele(2 * r + 1, f)] for f in ref["formula"]]
+                for r in range(ref["nref"])]
+    return ref["data"]
+
+
 def write_panel(inp, d):
     """Write the reference panel described by inp['ref']; returns (path, records) where records[i] is the
     identity (contig, pos, id, alleles) of panel variant i."""
-    ref = inp["ref"]
+    ref = dict(inp["ref"])
+    ref["data"] = ref_data(ref)
     R = ref["nref"]
     names = [f"R{i}" for i in range(R)]
     recs = []
@@ -309,7 +331,10 @@ def mat_term(m):
 def config_term(inp, draws):
     ref = inp["ref"]
     rv = lambda v: f"(mkrv {L.b(v[0])} {L.z(v[1])} {L.z(v[2])})"
-    data = L.lst(ref["data"], lambda row: L.lst(row, lambda c: f"({L.z(c[0])}, {L.z(c[1])})"))
+    if "formula" in ref:
+        data = f"(fdata {L.z(ref['nref'])} {L.lst(ref['formula'], lambda f: f'({L.z(f[0])}, {L.z(f[1])}, {L.z(f[2])})')})"
+    else:
+        data = L.lst(ref["data"], lambda row: L.lst(row, lambda c: f"({L.z(c[0])}, {L.z(c[1])})"))
     tab = L.lst(poptab(inp), lambda kv: f"({L.z(kv[0])}, {L.zl(kv[1])})")
     reg = "None"
     if inp.get("region"):
@@ -338,6 +363,27 @@ def obs_term(inp, obs):
 
 
 # ---- generator ---------------------------------------------------------------
+
+
+def gen_bps(rng, nsamp, chroms, pool, per_chrom_pos, grid, npop, maxblocks=4):
+    """hand-built breakpoints: per simulated haplotype and chromosome 1..maxblocks tracts whose ends lie on / next to
+    variant positions, closed by the int32-max sentinel (mostly) or just past the last variant"""
+    r = rng.random
+    bps = []
+    for _ in range(2 * nsamp):
+        hap = []
+        hap_chroms = sorted(set(chroms) | ({int(rng.choice(pool))} if r() < 0.3 else set()))
+        for c in hap_chroms:
+            pos = per_chrom_pos.get(c, [50])
+            nb = int(rng.integers(0, maxblocks))
+            cand = sorted(set([p + dlt for p in pos for dlt in (-1, 0, 1)] + [int(x) for x in rng.choice(grid, size=2)]))
+            ends = sorted(set(int(x) for x in rng.choice(cand, size=nb))) if nb else []
+            last = MAXI if r() < 0.85 else max(pos + ends) + int(rng.integers(0, 3))
+            ends = [e for e in ends if e < last] + [last]
+            for e in ends:
+                hap.append([int(rng.integers(1, npop)), c, int(e), int(rng.integers(0, 90))])
+        bps.append(hap)
+    return bps
 
 
 def gen_case(rng, tier="quick", force=None, want_norep=None):
@@ -399,20 +445,7 @@ def gen_case(rng, tier="quick", force=None, want_norep=None):
     info = [info[i] for i in rng.permutation(len(info))]
     # breakpoints
     nsamp = int(rng.integers(1, 4)) if not norep else int(rng.integers(1, 3))
-    bps = []
-    for _ in range(2 * nsamp):
-        hap = []
-        hap_chroms = sorted(set(chroms) | ({int(rng.choice(pool))} if r() < 0.3 else set()))
-        for c in hap_chroms:
-            pos = per_chrom_pos.get(c, [50])
-            nb = int(rng.integers(0, 4))
-            cand = sorted(set([p + dlt for p in pos for dlt in (-1, 0, 1)] + [int(x) for x in rng.choice(grid, size=2)]))
-            ends = sorted(set(int(x) for x in rng.choice(cand, size=nb))) if nb else []
-            last = MAXI if r() < 0.85 else max(pos + ends) + int(rng.integers(0, 3))
-            ends = [e for e in ends if e < last] + [last]
-            for e in ends:
-                hap.append([int(rng.integers(1, npop)), c, int(e), int(rng.integers(0, 90))])
-        bps.append(hap)
+    bps = gen_bps(rng, nsamp, chroms, pool, per_chrom_pos, grid, npop)
     region = None
     if r() < 0.2 and not prefix:
         c = int(rng.choice(chroms))
@@ -468,6 +501,210 @@ def gen_case(rng, tier="quick", force=None, want_norep=None):
     return case
 
 
+PRIMES = [251, 241, 239, 233, 229, 227]     # allele-count moduli of formula panels (< 256: haptools stores alleles as uint8)
+
+
+def narrow_images(s, nref):
+    """columns a panel index s turns into when it is stored in an 8/16-bit integer (unsigned: wraps; signed: wraps to a
+    negative index, which numpy counts from the end), other than s itself"""
+    out = set()
+    for w in (256, 65536):
+        u = s % w
+        sg = (s + w // 2) % w - w // 2
+        for x in (u, sg if sg >= 0 else nref + sg):
+            if 0 <= x < nref and x != s:
+                out.add(x)
+    return out
+
+
+WIDE_CLASSES = {"w128": (129, 141, 128), "w256": (257, 301, 256), "w65536": (65537, 65601, 65536)}
+
+
+def gen_wide_case(rng, tier="quick", wclass="w256", nref=None):
+    """A reference panel wider than an 8-bit (w128: signed, w256: unsigned) or 16-bit (w65536) integer can index.
+    The samples of the model's populations sit in the HIGH columns (>= 128 / 256 / 32768 / 65536); the columns such an
+    index turns into when it is narrowed belong to an unused population, to another population of the model, or are
+    not listed.  The panel is identifiable and given by a formula (ref['formula']), so the Coq literal stays small."""
+    r = rng.random
+    lo, hi, bound = WIDE_CLASSES[wclass]
+    if nref is None:
+        nref = 300 if (wclass == "w256" and r() < 0.4) else int(rng.integers(lo, hi))
+    norep = bool(r() < 0.3)
+    npopreal = int(rng.choice([1, 2, 3], p=[0.3, 0.45, 0.25]))
+    npop = npopreal + 1
+    # columns for the model's populations
+    def high():
+        m = r()
+        if m < 0.25:
+            return int(rng.choice([bound, bound + 1, nref - 1, nref - 2]))
+        if m < 0.85 or wclass == "w128":
+            return int(rng.integers(bound, nref))
+        if wclass == "w256":
+            return int(rng.integers(128, 256))            # narrowed to int8 it is a negative index
+        return int(rng.integers(32768, 65536))            # narrowed to int16 it is a negative index
+    owner = {}
+    per = 2 if norep else 1
+    for p_ in range(1, npop):
+        want = per + int(rng.integers(0, 3))
+        tries = 0
+        while sum(1 for v in owner.values() if v == p_) < want and tries < 40:
+            tries += 1
+            s_ = max(0, min(nref - 1, high()))
+            if s_ in owner:
+                continue
+            mine = {x for x, v in owner.items() if v == p_}
+            if narrow_images(s_, nref) & mine or any(s_ in narrow_images(x, nref) for x in mine):
+                continue        # a narrowed index must never land on a sample of the same population
+            owner[s_] = p_
+    info = [[s_, p_] for s_, p_ in owner.items()]
+    # what the narrowed indices hit, and some more low columns
+    images = set()
+    for s_ in list(owner):
+        images |= narrow_images(s_, nref)
+    low = images | {int(x) for x in rng.integers(0, min(bound, nref), size=4)}
+    for x in sorted(low - set(owner)):
+        m = r()
+        if m < 0.55 or (x not in images and m < 0.8):
+            info.append([x, npop])                          # an unused population
+        elif m < 0.8 and npopreal >= 2:
+            cand = [q for q in range(1, npop)
+                    if not any(x in narrow_images(s_, nref) or s_ in narrow_images(x, nref)
+                               for s_, v in owner.items() if v == q)]
+            if cand:
+                q = int(rng.choice(cand))
+                owner[x] = q
+                info.append([x, q])                         # another population of the model
+        # else: not listed at all
+    info = [info[i] for i in rng.permutation(len(info))]
+    pool = [1, 2, 3, 10, 22, 23]
+    nchr = int(rng.integers(1, 3))
+    panel_chroms = sorted(int(c) for c in rng.choice(pool, size=nchr, replace=False))
+    chroms = panel_chroms if r() < 0.7 else [int(rng.choice(panel_chroms))]
+    prefix = r() < 0.3
+    grid = [5, 10, 11, 20, 21, 30, 40, 41, 50, 60, 99, 100, 101, 150, 200]
+    vars_, per_chrom_pos, formula = [], {}, []
+    for c in panel_chroms:
+        pos = sorted(set(int(x) for x in rng.choice(grid, size=int(rng.integers(1, 4)))))
+        per_chrom_pos[c] = pos
+        for p_ in pos:
+            vars_.append([bool(prefix), c, p_])
+            a = int(rng.choice(PRIMES))
+            formula.append([int(rng.integers(1, a)), int(rng.integers(0, a)), a])
+    nsamp = int(rng.integers(1, 3))
+    bps = gen_bps(rng, nsamp, chroms, pool, per_chrom_pos, grid, npop)
+    return {
+        "chroms": chroms, "npop": npop, "info": info,
+        "ref": {"nref": nref, "vars": vars_, "nalleles": [f[2] for f in formula], "formula": formula,
+                "fmt": str(rng.choice(["vcf.gz", "bcf", "pgen"], p=[0.5, 0.3, 0.2]))},
+        "bps": bps, "region": None, "pop_field": bool(r() < 0.5), "sample_field": bool(r() < 0.5),
+        "norep": norep, "out": str(rng.choice(["vcf.gz", "vcf", "bcf"])), "seed": int(rng.integers(1, 2**31 - 1)),
+        "kind": "wellformed", "wide": wclass,
+    }
+
+
+BIG_GRID = [254, 255, 256, 257, 32766, 32767, 32768, 32769, 65534, 65535, 65536, 65537,
+            16777215, 16777216, 16777217, 536870910, 536870911]          # 2^29-1: the last position a .tbi can index
+BIG_GRID_CSI = [536870912, 2147483645, 2147483646]                      # BCF+CSI and .pvar reach 2^31-2
+
+
+def small_formula_panel(rng, nv, nref):
+    formula = []
+    for _ in range(nv):
+        a = int(rng.choice(PRIMES))
+        formula.append([int(rng.integers(1, a)), int(rng.integers(0, a)), a])
+    return formula
+
+
+def gen_boundary_case(rng, tier="quick", which="many-variants"):
+    """Width-boundary stream: quantities the code keeps in numpy arrays, around the limits of 8/16/24/29/31-bit integers.
+      many-variants : 254..300 variants on one chromosome (optionally after another chromosome, so that the rows of the
+                      chromosome start beyond row 255), block ends at the variants number 254..257
+      many-blocks   : 254..300 tracts on one chromosome of one simulated haplotype, variants in the blocks number 253..257
+                      and in the last one
+      big-positions : variant positions and block ends around 2^8, 2^15, 2^16, 2^24, 2^29 and (BCF / PGEN panels) 2^31-2
+      many-samples  : 127..130 simulated samples (254..260 simulated haplotypes)"""
+    r = rng.random
+    npopreal = int(rng.choice([1, 2, 3]))
+    npop = npopreal + 1
+    nref = int(rng.integers(max(2, npopreal), 6))
+    perm = [int(x) for x in rng.permutation(nref)]
+    info = [[s_, (i % npopreal) + 1 if i < npopreal or r() < 0.7 else npop] for i, s_ in enumerate(perm)]
+    fmt = str(rng.choice(["vcf.gz", "bcf", "pgen"]))
+    out = str(rng.choice(["vcf.gz", "vcf", "bcf"]))
+    prefix = bool(r() < 0.2)
+    nsamp = 1
+    if which == "many-variants":
+        nv = int(rng.choice([254, 255, 256, 257, 258, int(rng.integers(259, 301))]))
+        start, step = int(rng.integers(1, 50)), int(rng.integers(1, 4))
+        pos = [start + step * i for i in range(nv)]
+        c = int(rng.choice([2, 3, 10]))
+        lead = [[prefix, 1, int(p_)] for p_ in sorted(set(int(x) for x in rng.choice([5, 10, 20, 30], size=int(rng.integers(0, 4)))))]
+        vars_ = lead + [[prefix, c, p_] for p_ in pos]
+        chroms = [1, c] if lead and r() < 0.7 else [c]
+        bps = []
+        for _ in range(2):
+            hap = []
+            if 1 in chroms:
+                hap.append([int(rng.integers(1, npop)), 1, MAXI, 0])
+            k = int(rng.integers(0, 4))
+            idx = sorted(set(int(x) for x in rng.choice([253, 254, 255, 256, nv - 2], size=k))) if k else []
+            ends = sorted(set(min(pos[min(i, nv - 1)] + int(rng.integers(-1, 2)), pos[-1] + 5) for i in idx))
+            for e in [e for e in ends if e > 0] + [MAXI]:
+                hap.append([int(rng.integers(1, npop)), c, int(e), 0])
+            bps.append(hap)
+    elif which == "many-blocks":
+        nb = int(rng.choice([254, 255, 256, 257, 258, int(rng.integers(259, 301))]))
+        c = int(rng.choice([1, 2, 10]))
+        pos = sorted(set([int(x) for x in rng.choice([1, 5, 100, 253, 254, 255, 256, 257, 258, 299, 300, 301, 400], size=5)]))
+        vars_ = [[prefix, c, p_] for p_ in pos]
+        chroms = [c]
+        bps = []
+        for h in range(2):
+            n = nb if (h == 0 or r() < 0.5) else int(rng.integers(1, 4))
+            ends = list(range(1, n)) + [MAXI]               # tract number k (from 0) covers position k+1
+            bps.append([[int(rng.integers(1, npop)), c, int(e), 0] for e in ends])
+    elif which == "many-samples":
+        nsamp = int(rng.choice([127, 128, 129, 130]))       # 254..260 simulated haplotypes
+        c = int(rng.choice([1, 2, 10]))
+        pos = sorted(set(int(x) for x in rng.choice([5, 10, 20, 30], size=2)))
+        vars_ = [[prefix, c, p_] for p_ in pos]
+        chroms = [c]
+        bps = gen_bps(rng, nsamp, chroms, [c], {c: pos}, [5, 10, 11, 20, 21, 30], npop, maxblocks=2)
+    else:
+        grid = BIG_GRID + (BIG_GRID_CSI if fmt != "vcf.gz" else [])
+        if fmt == "bcf" and r() < 0.3:
+            grid = grid + [MAXI]                            # a variant on the sentinel itself
+        c = int(rng.choice([1, 2, 23]))
+        pos = sorted(set(int(x) for x in rng.choice(grid, size=int(rng.integers(2, 7)))))
+        vars_ = [[prefix, c, p_] for p_ in pos]
+        chroms = [c]
+        bps = gen_bps(rng, nsamp, chroms, [c], {c: pos}, grid, npop, maxblocks=5)
+        bps = [[t for t in hap if t[2] <= MAXI] for hap in bps]
+        for hap in bps:                                     # ends must stay <= 2^31-1 and ascending
+            if not hap or hap[-1][2] != MAXI:
+                hap.append([int(rng.integers(1, npop)), c, MAXI, 0])
+    formula = small_formula_panel(rng, len(vars_), nref)
+    return {
+        "chroms": chroms, "npop": npop, "info": info,
+        "ref": {"nref": nref, "vars": vars_, "nalleles": [f[2] for f in formula], "formula": formula, "fmt": fmt},
+        "bps": bps, "region": None, "pop_field": bool(r() < 0.6), "sample_field": bool(r() < 0.6),
+        "norep": bool(which not in ("many-blocks", "many-samples") and r() < 0.25), "out": out, "seed": int(rng.integers(1, 2**31 - 1)),
+        "kind": "wellformed", "boundary": which,
+    }
+
+
+def drop_vars(ref, idx):
+    """the panel without the variants number idx"""
+    idx = set(idx)
+    keep = [i for i in range(len(ref["vars"])) if i not in idx]
+    out = dict(ref, vars=[ref["vars"][i] for i in keep], nalleles=[ref["nalleles"][i] for i in keep])
+    if "formula" in ref:
+        out["formula"] = [ref["formula"][i] for i in keep]
+    else:
+        out["data"] = [[row[i] for i in keep] for row in ref["data"]]
+    return out
+
+
 def covered(inp):
     """every requested chromosome of every simulated haplotype reaches the last variant position read"""
     for hap in inp["bps"]:
@@ -508,6 +745,17 @@ class Vcf(Relation):
                 # (observed content is uninitialised memory, not reproducible): not generated
                 continue
             out.append(c)
+        # rare classes: wide panels (the reference sample's column does not fit 8 / 16 bits) and the width-boundary
+        # stream (numbers of variants / tracts around 255|256, positions around 2^8 .. 2^31)
+        k = max(1, n // 100)
+        extra = [gen_wide_case(rng, tier, "w256", nref=300)]
+        extra += [gen_wide_case(rng, tier, "w256") for _ in range(2 * k)]
+        extra += [gen_wide_case(rng, tier, "w128") for _ in range(k)]
+        extra += [gen_wide_case(rng, tier, "w65536") for _ in range(max(1, k // 4) if tier == "thorough" else 1)]
+        for which in ("many-variants", "many-blocks", "big-positions"):
+            extra += [gen_boundary_case(rng, tier, which) for _ in range(max(1, k // 2))]
+        extra += [gen_boundary_case(rng, tier, "many-samples") for _ in range(max(1, k // 8))]
+        out += [c for c in extra if covered(c)]
         return out
 
     def run_impl(self, inp):
@@ -543,7 +791,8 @@ class Vcf(Relation):
 
     def nontrivial(self, inp, obs):
         return inp["kind"] == "wellformed" and (
-            self._multi_block(inp) or self._extra_chroms(inp) or (inp["pop_field"] and inp["sample_field"]))
+            self._multi_block(inp) or self._extra_chroms(inp) or (inp["pop_field"] and inp["sample_field"])
+            or bool(inp.get("wide")))
 
     def classes(self, inp, obs):
         out = [inp["kind"], "ref=" + inp["ref"]["fmt"], "out=" + inp["out"],
@@ -562,6 +811,26 @@ class Vcf(Relation):
             out.append("variant-on-block-end")
         if max(inp["ref"]["nalleles"] + [2]) > 2:
             out.append("identifiable-panel")
+        if inp.get("wide"):
+            out.append("wide-panel-" + inp["wide"])
+            if inp["ref"]["nref"] == 300:
+                out.append("wide-panel-300-samples")
+            top = max([s_ for s_, p_ in inp["info"] if p_ < inp["npop"]] + [0])
+            out.append("model-population-sample-in-column>=%d" % (65536 if top >= 65536 else 256 if top >= 256 else 128 if top >= 128 else 0))
+        if inp.get("boundary"):
+            out.append("boundary-" + inp["boundary"])
+            nvc = max([sum(1 for v in inp["ref"]["vars"] if v[1] == c) for c in inp["chroms"]] + [0])
+            nbk = max([sum(1 for t in hap if t[1] == c) for hap in inp["bps"] for c in inp["chroms"]] + [0])
+            if nvc > 255:
+                out.append("more-than-255-variants-on-a-chromosome")
+            if nbk > 255:
+                out.append("more-than-255-tracts-on-a-chromosome")
+            if len(inp["bps"]) > 255:
+                out.append("more-than-255-simulated-haplotypes")
+            if any(v[2] > 65535 for v in inp["ref"]["vars"]):
+                out.append("position>=2^16")
+            if any(v[2] >= 2**29 for v in inp["ref"]["vars"]):
+                out.append("position>=2^29")
         if isinstance(obs, dict) and "failed" in obs:
             out.append(f"raised-{obs['failed'].get('cls')}")
         return out
@@ -572,15 +841,22 @@ class Vcf(Relation):
             for s in range(len(bps) // 2):
                 yield dict(inp, bps=bps[:2 * s] + bps[2 * s + 2:])
         for h, hap in enumerate(bps):
+            if len(hap) > 24:       # halves first (boundary cases hold hundreds of tracts); the last tract stays
+                m = (len(hap) - 1) // 2
+                yield dict(inp, bps=bps[:h] + [hap[m:]] + bps[h + 1:])
+                yield dict(inp, bps=bps[:h] + [hap[:m] + hap[-1:]] + bps[h + 1:])
+                continue
             for j in range(len(hap)):
                 if sum(1 for t in hap if t[1] == hap[j][1]) > 1 and hap[j][2] != MAXI:
                     yield dict(inp, bps=bps[:h] + [hap[:j] + hap[j + 1:]] + bps[h + 1:])
         ref = inp["ref"]
-        for vi in range(len(ref["vars"])):
-            if len(ref["vars"]) > 1:
-                yield dict(inp, ref=dict(ref, vars=ref["vars"][:vi] + ref["vars"][vi + 1:],
-                                         nalleles=ref["nalleles"][:vi] + ref["nalleles"][vi + 1:],
-                                         data=[row[:vi] + row[vi + 1:] for row in ref["data"]]))
+        nvars = len(ref["vars"])
+        if nvars > 24:      # halves first (boundary cases hold hundreds of variants)
+            for a, b in ((nvars // 2, nvars), (0, nvars // 2)):
+                yield dict(inp, ref=drop_vars(ref, range(a, b)))
+        for vi in range(nvars if nvars <= 24 else 0):
+            if nvars > 1:
+                yield dict(inp, ref=drop_vars(ref, [vi]))
         if inp["region"]:
             yield dict(inp, region=None)
         if inp["norep"]:
@@ -595,6 +871,18 @@ class Vcf(Relation):
         if len(inp["chroms"]) > 1:
             for j in range(len(inp["chroms"])):
                 yield dict(inp, chroms=inp["chroms"][:j] + inp["chroms"][j + 1:])
+        if inp.get("wide") or inp.get("boundary"):
+            # tracts of chromosomes that are not requested; sample-info lines; the panel's unused right-hand columns
+            for h, hap in enumerate(bps):
+                rest = [t for t in hap if t[1] in inp["chroms"]]
+                if len(rest) < len(hap):
+                    yield dict(inp, bps=bps[:h] + [rest] + bps[h + 1:])
+            info = inp["info"]
+            for j in range(len(info) if len(info) > 1 else 0):
+                yield dict(inp, info=info[:j] + info[j + 1:])
+            top = max([s_ for s_, _p in info] + [1]) + 1
+            if top < ref["nref"]:
+                yield dict(inp, ref=dict(ref, nref=top))
 
     def mutate(self, inp, rng):
         for _ in range(4):
@@ -659,6 +947,18 @@ class Assign(Relation):
             else:
                 kind = "short-last-end"
             out.append({"pos": pos, "ends": ends, "kind": kind})
+        # width-boundary stream: 254..258 positions / ends, values around 2^8, 2^15, 2^16, 2^31, 2^32
+        for _ in range(max(2, n // 300)):
+            npos = int(rng.choice([254, 255, 256, 257, 258]))
+            start = int(rng.choice([0, 200, 32700, 65500, 2**31 - 300, 2**32 - 130]))
+            pos = sorted(start + int(x) for x in rng.choice(400, size=npos))
+            if rng.random() < 0.5:
+                ends = sorted(set(int(x) for x in rng.choice(pos, size=int(rng.integers(1, 5))))) + [max(pos) + 1]
+                kind = "boundary-many-positions"
+            else:
+                ends = sorted(set(start + int(x) for x in rng.choice(400, size=int(rng.choice([254, 255, 256, 257, 258]))))) + [start + 400]
+                kind = "boundary-many-ends"
+            out.append({"pos": pos, "ends": ends, "kind": kind})
         return out
 
     def exhaustive(self, tier):
@@ -716,15 +1016,17 @@ class Assign(Relation):
 # ---- end to end: simulate_gt -> write_breakpoints -> output_vcf -------------------------------
 
 
-def gen_sim_case(rng, tier="quick"):
+def gen_sim_case(rng, tier="quick", base=None):
     """A panel / sample-info / flag configuration as for the vcf relation, with genetic maps instead of
     hand-built breakpoints: one map file per requested chromosome whose markers lie on the grid of the
     variant positions and whose LAST marker lies - independently for every chromosome, hence for the
     first, a middle and the last one - well below, exactly on, or above the chromosome's variants."""
-    while True:
+    while base is None:
         c = gen_case(rng, tier)
         if c["kind"] == "wellformed":
             break
+    if base is not None:
+        c = base        # a wide panel (gen_wide_case): the same chain with the reference samples in high columns
     r = rng.random
     grid = [5, 10, 11, 20, 21, 30, 40, 41, 50, 60, 99, 100, 101, 150, 200]
     maps, past = {}, []
@@ -865,7 +1167,11 @@ class Sim(Vcf):
     anchors = Vcf.anchors
 
     def generate(self, rng, n, tier):
-        return [gen_sim_case(rng, tier) for _ in range(n)]
+        out = [gen_sim_case(rng, tier) for _ in range(n)]
+        k = max(1, n // 75)
+        out += [gen_sim_case(rng, tier, base=gen_wide_case(rng, tier, "w256")) for _ in range(2 * k)]
+        out += [gen_sim_case(rng, tier, base=gen_wide_case(rng, tier, "w128")) for _ in range(k)]
+        return out
 
     def run_impl(self, inp):
         return run_sim_vcf(inp)
@@ -918,9 +1224,7 @@ class Sim(Vcf):
         ref = inp["ref"]
         for vi in range(len(ref["vars"])):
             if sum(1 for v in ref["vars"] if v[1] == ref["vars"][vi][1]) > 1:
-                yield dict(inp, ref=dict(ref, vars=ref["vars"][:vi] + ref["vars"][vi + 1:],
-                                         nalleles=ref["nalleles"][:vi] + ref["nalleles"][vi + 1:],
-                                         data=[row[:vi] + row[vi + 1:] for row in ref["data"]]))
+                yield dict(inp, ref=drop_vars(ref, [vi]))
         if inp["norep"]:
             yield dict(inp, norep=False)
         if inp["out"] != "vcf":
@@ -953,8 +1257,10 @@ LEVEL_TEXT = (
     "output_vcf wrote for generated breakpoints x panels x flags x formats, read back with pysam/pgenlib. The end-to-end relation "
     "runs simulate_gt -> write_breakpoints -> output_vcf on generated maps ending below the reference variants on every "
     "chromosome; theorems: sorted breakpoints closed by the sentinel cover every position (C03_sentinel_covers, the hypothesis of "
-    "C03_no_uninitialised), a variant past every other end falls in the last block, and C03_output_allele_spec - one statement "
-    "about every output cell (assignment + per-block reference haplotype + writer)."
+    "C03_no_uninitialised), a variant past every other end falls in the last block, C03_output_allele_label_at / "
+    "C03_output_allele_simulated - the property as ONE statement about every output cell in the breakpoints' own vocabulary "
+    "(label_at; one reference haplotype per block; POP/SAMPLE; never uninitialised) - and C03_pop_is_population_array: the POP "
+    "rows written are what C05's model of Breakpoints.population_array returns for those breakpoints."
 )
 LEVEL_NOTE = (
     "Trusted: Coq kernel/vm_compute; the hand-written model (validated only differentially); recorded numpy draws are "
